@@ -36,7 +36,7 @@ var vErrSentinel = errors.New("sentinel failure")
 func VH_C15_recovery() {
 	before := vx.ParamInt("before") // middleware in front of Recovery
 	depth := vx.ParamInt("depth")   // pass-through handlers between Recovery and the panicking one
-	kind := vx.Choice(10)           // what is thrown (6: a panic raised inside a ResponseWriter Before function; 7: http.ErrAbortHandler; 8: the underlying writer panics on an invalid status code the handler returned)
+	kind := vx.Choice(13)           // what is thrown (10, 11: values whose message is empty; 12: a message ending in a line break; 6: a panic raised inside a ResponseWriter Before function; 7: http.ErrAbortHandler; 8: the underlying writer panics on an invalid status code the handler returned)
 	phase := vx.Choice(2)           // 0: before the handler wrote anything, 1: after its own write
 	if kind == 6 || kind == 8 {
 		vx.Assume(phase == 0) // these cases have no "after its own write" phase
@@ -107,6 +107,12 @@ func VH_C15_recovery() {
 			_ = arr[c.ResponseWriter().Size()+3] // runtime error: index out of range
 		case 7:
 			panic(http.ErrAbortHandler)
+		case 10:
+			panic("")
+		case 11:
+			panic(errors.New(""))
+		case 12:
+			panic("two\nlines\n")
 		case 9:
 			var ne *vNilErr
 			var err error = ne
